@@ -1177,6 +1177,118 @@ fn shift_placeholders(args: &[u8], by: u8) -> Vec<u8> {
 }
 
 // ------------------------------------------------------------------------------------------------
+// auth zones holding proofs of several resources and kinds
+
+/// 1-4 proofs of fungible and non-fungible resources are put into the transaction's auth zone
+/// (account `create_proof_of_*`), then 1-3 instructions compose / pop / clone / drop proofs. The
+/// simplest case (empty tape) is the scenario of the repaired composition trap: a fungible and a
+/// non-fungible proof in the zone, then CREATE_PROOF_FROM_AUTH_ZONE_OF_AMOUNT of the fungible one.
+fn auth_zone_case(g: &mut Gen) -> Outcome {
+    with_world(WORLD_KEY, no_genesis, build, |w| {
+        let ext_rc = w.ext::<Rc<Ext>>().clone();
+        let ext: &Ext = &ext_rc;
+        let totals = Totals::scan(w.db());
+        let mut mb = MB::default();
+        mb.lock_fee();
+        // the zone
+        let extra = g.below(3) as usize;
+        let mut in_zone: Vec<ResInfo> = Vec::new();
+        mb.auth_proofs(w, ext);
+        in_zone.push(ext.resources[1].clone()); // world badge (fungible)
+        in_zone.push(ext.resources.iter().find(|r| r.address == VALIDATOR_OWNER_BADGE).unwrap().clone());
+        for _ in 0..extra {
+            let r = g.pick(&ext.resources).clone();
+            let acct = ext.pick_holder(g, &r.address);
+            let (bal, ids) = account_holding(ext, &totals, acct, &r.address);
+            match r.kind {
+                ResKind::NonFungible => {
+                    let take: Vec<NonFungibleLocalId> = ids.into_iter().take(1 + g.index(2)).collect();
+                    if take.is_empty() {
+                        continue;
+                    }
+                    mb.ins.push(call_method(w.accounts[acct].address, ACCOUNT_CREATE_PROOF_OF_NON_FUNGIBLES_IDENT, (r.address, take)));
+                }
+                ResKind::Fungible { divisibility } => {
+                    let how = *g.pick(&[Amount::One, Amount::Some, Amount::All, Amount::Smallest]);
+                    let amt = resolve_amount(g, how, bal, divisibility);
+                    if !amt.is_positive() {
+                        continue;
+                    }
+                    mb.ins.push(call_method(w.accounts[acct].address, ACCOUNT_CREATE_PROOF_OF_AMOUNT_IDENT, (r.address, amt)));
+                }
+            }
+            mb.log.push(format!("A{} proof of {} into the zone", acct, r.name));
+            in_zone.push(r);
+        }
+        let steps = 1 + g.below(3);
+        let mut named: u32 = 0;
+        for _ in 0..steps {
+            // mostly resources that are in the zone, sometimes any
+            let r = if g.chance(1, 5) { g.pick(&ext.resources).clone() } else { g.pick(&in_zone).clone() };
+            let amount = match g.weighted(&[4, 2, 2, 1]) {
+                0 => dec!(1),
+                1 => Decimal::ZERO,
+                2 => Decimal::from(1 + g.below(10)),
+                _ => dec!("0.5"),
+            };
+            let ids: Vec<NonFungibleLocalId> = if r.address == VALIDATOR_OWNER_BADGE {
+                vec![ext.validator_badge_id.clone()]
+            } else {
+                let acct = ext.pick_holder(g, &r.address);
+                account_holding(ext, &totals, acct, &r.address).1.into_iter().take(g.index(3)).collect()
+            };
+            let (ins, what): (InstructionV1, &'static str) = match g.weighted(&[5, 3, 3, 1, 1, 1, 1]) {
+                0 => (InstructionV1::CreateProofFromAuthZoneOfAmount(CreateProofFromAuthZoneOfAmount { resource_address: r.address, amount }), "auth zone: of_amount"),
+                1 => (InstructionV1::CreateProofFromAuthZoneOfAll(CreateProofFromAuthZoneOfAll { resource_address: r.address }), "auth zone: of_all"),
+                2 => (InstructionV1::CreateProofFromAuthZoneOfNonFungibles(CreateProofFromAuthZoneOfNonFungibles { resource_address: r.address, ids }), "auth zone: of_non_fungibles"),
+                3 => (InstructionV1::PopFromAuthZone(PopFromAuthZone), "auth zone: pop"),
+                4 if named > 0 => (InstructionV1::CloneProof(CloneProof { proof_id: ManifestProof(g.below(named as u64) as u32) }), "auth zone: clone named proof"),
+                5 if named > 0 => (InstructionV1::PushToAuthZone(PushToAuthZone { proof_id: ManifestProof(named - 1) }), "auth zone: push named proof"),
+                _ => (InstructionV1::DropAuthZoneRegularProofs(DropAuthZoneRegularProofs), "auth zone: drop regular proofs"),
+            };
+            if matches!(ins, InstructionV1::CreateProofFromAuthZoneOfAmount(_) | InstructionV1::CreateProofFromAuthZoneOfAll(_) | InstructionV1::CreateProofFromAuthZoneOfNonFungibles(_) | InstructionV1::PopFromAuthZone(_) | InstructionV1::CloneProof(_)) {
+                named += 1;
+            }
+            g.label(what);
+            mb.log.push(format!("{} {} amount {}", what, r.name, amount));
+            mb.ins.push(ins);
+        }
+        // everything must be unlocked again once the proofs are gone: take the whole badge balance out and back
+        let check_unlock = g.chance(1, 2);
+        if check_unlock {
+            let (bal, _) = account_holding(ext, &totals, 0, &w.badge);
+            mb.ins.push(InstructionV1::DropNamedProofs(DropNamedProofs));
+            mb.ins.push(InstructionV1::DropAuthZoneRegularProofs(DropAuthZoneRegularProofs));
+            mb.ins.push(call_method(w.accounts[0].address, ACCOUNT_WITHDRAW_IDENT, (w.badge, bal)));
+            mb.ins.push(call_method(w.accounts[0].address, ACCOUNT_DEPOSIT_BATCH_IDENT, (ManifestExpression::EntireWorktop,)));
+            mb.log.push("drop all proofs, withdraw the whole badge balance, deposit it back".into());
+        }
+        let run = w.run(mb.manifest(), all_badges(w));
+        let describe = || format!("{} => {}", mb.log.join(" ; "), short_outcome(&run));
+        let v = match judge(&run, w, "auth-zone", false, &describe) {
+            Ok(v) => v,
+            Err(f) => return Outcome::Fail(f),
+        };
+        g.label(v.class);
+        debug_class(v.class, &describe);
+        if in_zone.len() >= 2 {
+            g.nontrivial();
+        }
+        if check_unlock {
+            // a vault that stays locked after its proofs are gone shows as InsufficientBalance here
+            if let Some(RuntimeError::ApplicationError(ApplicationError::VaultError(_))) = run.failure() {
+                let text = run.outcome_string();
+                if text.contains("InsufficientBalance") {
+                    return Outcome::fail("a vault stays locked after every proof composed from the auth zone was dropped", describe());
+                }
+            }
+        }
+        g.sample(|| describe());
+        Outcome::Pass
+    })
+}
+
+// ------------------------------------------------------------------------------------------------
 // notarized transactions, mutated
 
 fn signed_v1(w: &mut World, manifest: TransactionManifestV1, nonce: u32, signers: &[usize], notary_is_signatory: bool) -> Result<RawNotarizedTransaction, String> {
@@ -1325,6 +1437,7 @@ pub fn check() -> Check {
     .assume("host panics raised by the simulator's own `expect` on prepare (payload not encodable as a test transaction) are counted, not judged")
     .part(Part::new("calls", 6000, 400_000, 4096, calls_case))
     .part(Part::new("internal", 4000, 250_000, 4096, internal_case))
+    .part(Part::new("auth_zone", 1500, 80_000, 1024, auth_zone_case))
     .part(Part::new("notarized", 3000, 150_000, 4096, notarized_case))
     .min_nontrivial_pct(20.0)
 }
